@@ -1648,7 +1648,18 @@ class GT(G):
         out = []
         for _ in range(self.i(0, 2)):
             v = self.fresh("t")
-            out.append(("let", v, ("num", float(self.i(0, 9)))))
+            c = self.i(0, 9)
+            if c < 4:
+                out.append(("let", v, ("num", float(self.i(0, 9)))))
+            elif c < 6:
+                # natives that run with a stub frame of their own, before the raise: the frames of the natives that are
+                # still active must keep their own names
+                out.append(self.pick([("print", ("str", "f%d" % self.i(0, 9))),
+                                      ("let", v, ("index", ("list", [("num", 1.0)]), ("num", 0.0))),
+                                      ("let", v, ("call", ("prop", ("list", [("num", 1.0)]), "str"), []))]))
+            else:
+                # a string literal that spans several source lines: every line after it must still be counted right
+                out.append(("let", v, ("mlstr", "\n".join("row%d" % k for k in range(self.i(2, 4))))))
         return out
 
     def scenario(self):
@@ -1706,8 +1717,14 @@ class GT(G):
                 out.append(("fn", nm, ["x"], body))
                 if kind == "exit":
                     call = ("call", ("var", nm), [("num", 0.0)])
-                elif self.chance(50):
-                    call = ("call", ("prop", ("call", ("prop", ("list", [("num", 1.0)]), "iter"), []), "each"), [("var", nm)])
+                elif self.chance(60):
+                    it = ("call", ("prop", ("list", [("num", 1.0)]), "iter"), [])
+                    which = self.pick(["each", "each", "all", "any", "reduce"])
+                    if which == "reduce":
+                        # the chain function takes one parameter: adapt it
+                        call = ("call", ("prop", it, "reduce"), [("num", 0.0), ("lambda", ["acc", "x"], ("expr", ("call", ("var", nm), [("var", "x")])))])
+                    else:
+                        call = ("call", ("prop", it, which), [("var", nm)])
                 else:
                     call = ("call", ("prop", ("call", ("prop", ("call", ("prop", ("list", [("num", 1.0)]), "iter"), []), "map"), [("var", nm)]), "list"), [])
             out.extend(self.filler())
@@ -1716,8 +1733,7 @@ class GT(G):
         c = self.i(0, 9)
         report = [("print", ("prop", ("var", "e"), "message")),
                   ("if", ("bin", "!=", ("prop", ("var", "e"), "inner"), ("nil",)), [("print", ("prop", ("prop", ("var", "e"), "inner"), "message"))], None),
-                  ("for", "bt", ("prop", ("var", "e"), "backTrace"),
-                   [("if", ("un", "!", ("call", ("prop", ("var", "bt"), "has"), [("str", "native:")])), [("print", ("var", "bt"))], None)])]
+                  ("for", "bt", ("prop", ("var", "e"), "backTrace"), [("print", ("var", "bt"))])]
         if c < 5 and kind in ("raise", "fault"):
             out.append(("try", self.filler() + [("expr", call)], [("e", None, report)]))
             out.append(("print", ("str", "after")))
